@@ -151,6 +151,11 @@ pub fn dec_pmtiles(f: &[u8]) -> Result<PmDecoded> {
 	let r = |i: usize| le(&f[8 + 8 * i..16 + 8 * i]);
 	let (root_off, root_len, meta_off, meta_len, leaf_off, _leaf_len, data_off, _data_len) = (r(0), r(1), r(2), r(3), r(4), r(5), r(6), r(7));
 	let (clustered, ic, tc, tt) = (f[96] == 1, f[97], f[98], f[99]);
+	// layout: header and root directory inside the first 16 KiB; the sections do not overlap
+	ensure!(root_off >= 127 && root_off + root_len <= 16384, "root directory {root_off}+{root_len} is not inside the first 16384 bytes");
+	{ let mut secs = vec![(0u64, 127u64, "header"), (root_off, root_len, "root directory"), (meta_off, meta_len, "metadata"), (leaf_off, _leaf_len, "leaf directories"), (data_off, _data_len, "tile data")];
+		secs.retain(|s| s.1 > 0); secs.sort();
+		for w in secs.windows(2) { ensure!(w[0].0 + w[0].1 <= w[1].0, "{} ({}+{}) overlaps {} (at {})", w[0].2, w[0].0, w[0].1, w[1].2, w[1].0); } }
 	let dc = |d: &[u8]| -> Result<Vec<u8>> { Ok(match ic { 1 => d.to_vec(), 2 => gunzip(d)?, 3 => unbrotli(d)?, _ => bail!("internal compression {ic}") }) };
 	let meta = dc(sl(f, meta_off, meta_len)?)?;
 	let mut tiles = TileMap::new();
